@@ -45,7 +45,9 @@ func newPMFromDataset(options plugintypes.OperatorOptions) (plugintypes.Operator
 		DFA:                  true,
 	})
 
-	m, _ := memoizeDo(options.Memoizer, "pmFromDataset:"+data, func() (any, error) { return builder.Build(dataset), nil })
+	// Keyed by the content of the data set: its name is local to one configuration (and may be
+	// redefined inside one), while the cache is shared by every WAF of the process.
+	m, _ := memoizeDo(options.Memoizer, "pmFromDataset:"+listDigest(dataset), func() (any, error) { return builder.Build(dataset), nil })
 
 	return &pm{matcher: m.(ahocorasick.AhoCorasick), minLen: minPatternLen(dataset)}, nil
 }
